@@ -89,7 +89,8 @@ func (s *burstyStats[R]) acquirePermits(requestedPermits int, maxWaitTime time.D
 		elapsedPermits := elapsedPeriods * s.periodPermits
 		s.currentPeriod = newCurrentPeriod
 		if s.availablePermits < 0 {
-			s.availablePermits += elapsedPermits
+			// Unused permits do not carry over: an elapsed deficit can at most restore a full period of permits
+			s.availablePermits = min(s.availablePermits+elapsedPermits, s.periodPermits)
 		} else {
 			s.availablePermits = s.periodPermits
 		}
